@@ -535,6 +535,39 @@ class Facts:
                 continue
             out.append((old, pick[0]))
             taken.add(pick[0])
+        # a private function that was renamed (or moved) AND given another signature is recognised by what it calls: the missing anchor and the one
+        # newcomer of its crate whose callee set is clearly the most similar (Jaccard >= 0.6, runner-up at least 0.15 behind, both with >= 4 callees)
+        def fp(d):
+            b = self.bodies.get(d)
+            s_ = set()
+            if b is not None:
+                for n in walk(b['body']):
+                    if n.get('k') in ('call', 'mcall'):
+                        for c in callee_all(n)[:1]:
+                            s_.add(last_seg(c.split('::<')[0]))
+                        if n.get('k') == 'mcall' and n.get('name'):
+                            s_.add(n['name'])
+            return s_
+        done_old = {o for o, _ in out}
+        for old, v in sorted(base.items()):
+            if old in self.fns or old in done_old or old.split('::')[0].lstrip('<') not in self.crates or v.get('vis') == 'pub' or old.startswith('<'):
+                continue
+            want = set(v.get('calls') or [])
+            if len(want) < 4:
+                continue
+            crate = old.split('::')[0]
+            scored = []
+            for c, cv in unknown.items():
+                if c in taken or c.split('::')[0] != crate or c.startswith('<') or cv.get('vis') == 'pub':
+                    continue
+                got = fp(c)
+                if len(got) < 4:
+                    continue
+                scored.append((len(want & got) / len(want | got), c))
+            scored.sort(reverse=True)
+            if scored and scored[0][0] >= 0.6 and (len(scored) == 1 or scored[0][0] - scored[1][0] >= 0.15):
+                out.append((old, scored[0][1]))
+                taken.add(scored[0][1])
         return out
 
     def n_bodies(self):
